@@ -13,7 +13,10 @@ def run(report):
                          'parso.python.parser.Parser._stack_removal', 'parso.parser.StackNode.nonterminal',
                          'parso.parser.ParserSyntaxError.__init__', 'parso.parser.BaseParser.parse',
                          'parso.python.parser.Parser.convert_node', 'parso.python.tree.Scope.__init__', 'parso.python.tree.Class.__init__',
-                         'parso.python.tree.Module.__init__'], procs=14)
+                         'parso.python.tree.Module.__init__',
+                         # Function / Lambda constructors: total on a funcdef / lambdef production (only _create_params is assumed)
+                         'parso.python.tree.Function.__init__', 'parso.python.tree.Function._find_parameters',
+                         'parso.python.tree.Lambda.__init__'], procs=14)
     report.assume("engine: _add_token / _pop are proved free of IndexError / KeyError / AttributeError and to keep the stack "
                   "shape under the preconditions 'stack non-empty and well formed', 'tables well formed' (T obligations) and "
                   "'the root entry is not complete' (ENDMARKER is the last token: tokenizer contract, bounded); "
